@@ -487,7 +487,11 @@ func (w *World) evalC11(pr *probeState) {
 			v := want[k]
 			got, _ := e[k].(string)
 			if got != v {
-				w.fail("C11.key-decode", "key-decode:"+k, "IP %s key %q lists %s=%q, the pod it was built from has %q", f.IP, f.Key, k, got, v)
+				key := "key-decode:" + k
+				if strings.Contains(id.App.Pool, "_") {
+					key = "pool-name-with-underscore"
+				}
+				w.fail("C11.key-decode", key, "IP %s key %q lists %s=%q, the pod it was built from has %q", f.IP, f.Key, k, got, v)
 				return
 			}
 		}
@@ -510,6 +514,9 @@ func (w *World) evalC11(pr *probeState) {
 		key := "listed-releasable-not-released"
 		if pr.omit && pr.entry["appType"] == "statefulset" {
 			key += ":appType-omitted"
+		}
+		if f := w.storeFip(ip); f != nil && strings.HasPrefix(f.Key, "pool__") && strings.Count(strings.SplitN(f.Key, "_dp_", 2)[0], "_") > 3 {
+			key = "pool-name-with-underscore"
 		}
 		w.fail("C11.listed-releasable-not-released", key,
 			"the list reports %v as releasable, posting it back (appType omitted: %v) answered %d %s and did not release it", pr.entry, pr.omit, pr.post.Code, pr.post.Body)
